@@ -205,7 +205,16 @@ func (e *Entry) Modules() *Modules {
 	for e.Parent != nil {
 		e = e.Parent
 	}
-	return e.Node.(*Module).Modules
+	// The root of a tree made from a grouping, a deviation or an augment
+	// node is not a module entry: its module is the one the node is
+	// written in.
+	if e.Node == nil {
+		return nil
+	}
+	if m := RootNode(e.Node); m != nil {
+		return m.Modules
+	}
+	return nil
 }
 
 // IsDir returns true if e is a directory.
@@ -1411,7 +1420,7 @@ func (e *Entry) Find(name string) *Entry {
 					mod.NName(), e.Path()))
 				return nil
 			}
-			if m != e.Node.(*Module) {
+			if root, ok := e.Node.(*Module); !ok || m != root {
 				e = ToEntry(m)
 			}
 		} else if root, ok := e.Node.(*Module); ok && root.BelongsTo != nil {
@@ -1531,7 +1540,11 @@ func (e *Entry) InstantiatingModule() (string, error) {
 		return "", fmt.Errorf("entry %s had nil namespace", e.Name)
 	}
 
-	module, err := e.Modules().FindModuleByNamespace(n.Name)
+	ms := e.Modules()
+	if ms == nil {
+		return "", fmt.Errorf("entry %s is not part of a module set", e.Name)
+	}
+	module, err := ms.FindModuleByNamespace(n.Name)
 	if err != nil {
 		return "", fmt.Errorf("could not find module %q when retrieving namespace for %s: %v", n.Name, e.Name, err)
 	}
